@@ -24,7 +24,8 @@ RULE = (
     "prefixes, with and without the suffix (also suffix in the middle of the key, custom suffix), "
     "page sizes 1..n+1, prefix '' / None / non-matching.  The fake S3 (vlib/fakes3.py) is injected "
     "by assigning the lazy handle's attributes, so the real get_mos_files / get_file_contents / "
-    "from_s3 bodies run.  Oracle: same class and same str() from all four sources; the three "
+    "from_s3 bodies run.  Oracle: same class and same str() from all four sources, also when "
+    "constructed through the concrete class itself or (roElementAction) through ElementAction.from_*; the three "
     "constructors give the same reader IDs and the same merged str(mc); each MosReader reports "
     "message_id / ro_id / mos_type equal to those of the object it restores, and restores a new "
     "object with equal str() on every access - also after previously restored objects were modified "
@@ -74,6 +75,27 @@ def judge_doc(case):
                 f'the same content gives different objects: { {k: v[0] for k, v in outs.items()} }'
                 + ('' if len({v[0] for v in outs.values()}) > 1 else ' (same class, different serialisation)'),
                 outs['str'], [v for v in outs.values() if v != outs['str']][0]))
+        # the same through the other documented entry points: the concrete class itself and,
+        # for roElementAction documents, the ElementAction base class (which classifies)
+        if not outs['str'][0].startswith('EXC'):
+            import mosromgr.mostypes as mt
+            entry = [getattr(mt, outs['str'][0])]
+            if outs['str'][0].startswith('EA'):
+                entry.append(mt.ElementAction)
+            for cls in entry:
+                for name, fn in (('str', lambda: cls.from_string(text)), ('bytes', lambda: cls.from_string(raw)),
+                                 ('file', lambda: cls.from_file(path)), ('s3', lambda: cls.from_s3('b', 'k/d.mos.xml'))):
+                    try:
+                        with fake:
+                            mo = fn()
+                        got = (type(mo).__name__, str(mo))
+                    except Exception as e:
+                        got = (f'EXC {type(e).__name__}', '')
+                    if got != outs['str']:
+                        fails.append(Failure(PROP, f'C18|entry-point:{cls.__name__ if cls is mt.ElementAction else "concrete-class"}'
+                                                   f'|{name}|differs-from-MosFile',
+                                             f'{cls.__name__}.from_{name if name != "bytes" else "string(bytes)"} gives {got[0]}, '
+                                             f'MosFile.from_string gives {outs["str"][0]}', outs['str'], got))
         # readers
         if not outs['str'][0].startswith('EXC'):
             for name, mk in (('string', lambda: MosReader.from_string(text)),
